@@ -140,8 +140,10 @@ def gen_layout_program(rng, big=False):
         r = rng.random()
         if r < 0.45:
             items.append(('ref', rng.choice(REL), rng.choice(labels)))
-        elif r < 0.50:
+        elif r < 0.49:
             items.append(('ref', rng.choice(ABS), '#data'))       # patched below: absolute refs go to data labels
+        elif r < 0.50:
+            items.append(('ref', rng.choice(ABS), rng.choice(labels)))   # absolute reference to a code label: accepted only if it happens to be word aligned
         elif r < 0.80:
             b = rng.choice(bounds)
             n = max(0, b + rng.choice([-3, -2, -1, 0, 1, 2, 3]) - rng.choice([0, 1, 2, 3, 4]))
